@@ -169,7 +169,7 @@ def _airborne_msg(lat, lon, i, tc=11):
 
 
 @harness("C17", inputs={"seed": Seed(), "scenario": Choice("random", "nl_transition", "equator", "antimeridian", "gaps")},
-         kind="bounded", functions=[D + "process_raw"],
+         kind="bounded", bound={"quick": 4000, "thorough": 40000}, functions=[D + "process_raw"],
          note="accuracy clause: simulated trajectories at up to 600 kt through NL transitions, the equator and the "
               "antimeridian, with message gaps below 10 s, 10-180 s and above 180 s; after every update the stored "
               "position is compared with the true position at the message that caused it (|lat| <= 87)")
